@@ -59,12 +59,12 @@ PROPS = {
     "C04": dict(
         level="model_checking",
         level_text="bounded model checking by symbolic execution: token values, offsets, ordering, EOF placement, line/column and filename are asserted from the input alone on every feasible path of the real StatefulLexer.Next for all inputs up to L bytes, plus a unit obligation for Position.Advance from an arbitrary position over an arbitrary span",
-        level_note="trusted: as C03; the text/scanner-based lexer is outside the claim (stdlib scanner not encoded); generated lexers are covered by the C05 run",
+        level_note="trusted: as C03; the text/scanner-based lexer is executed from SSA on <= 3 bytes of a 10-byte alphabet (letters, digits, blanks, line breaks, quotes, comment characters; no multi-byte input); generated lexers are covered by the C05 run",
         runs=[dict(pkg="lexer", files=["lexer/zz_verif_stateful.go", "lexer/zz_verif_lexdefs.go", "lexer/zz_verif_lexgen.go"], harness="^VH_C04_",
-                   reach={"VH_C04_Advance": ["same-line", "new-line"], "VH_C04_Literal": ["ok", "error"], "VH_C04_Multibyte": ["ok", "error"]})],
-        bounds=dict(quick="Position.Advance: any 64-bit start position x any span of <= 4 arbitrary bytes; 17 catalogue definitions (incl. dot-all, rule names starting with bytes >= 0xE0 and no lower-case rule, negated class, multi-line, multi-byte literal rules, elided rules with actions, non-ASCII rule names) + 100 generated definitions x all inputs of <= 3 arbitrary bytes; 2 definitions x entry point in {LexString, Lex(reader)} chosen by the solver x prefix in {none, UTF-8 BOM, truncated BOM, UTF-16 BOM bytes} + <= 2 arbitrary bytes",
+                   reach={"VH_C04_Advance": ["same-line", "new-line"], "VH_C04_Literal": ["ok", "error"], "VH_C04_Multibyte": ["ok", "error"], "VH_C04_TextScanner": ["ok", "error"]})],
+        bounds=dict(quick="Position.Advance: any 64-bit start position x any span of <= 4 arbitrary bytes; 17 catalogue definitions (incl. dot-all, rule names starting with bytes >= 0xE0 and no lower-case rule, negated class, multi-line, multi-byte literal rules, elided rules with actions, non-ASCII rule names) + 100 generated definitions x all inputs of <= 3 arbitrary bytes; 2 definitions x entry point in {LexString, Lex(reader)} chosen by the solver x prefix in {none, UTF-8 BOM, truncated BOM, UTF-16 BOM bytes} + <= 2 arbitrary bytes; default text/scanner lexer x all inputs of <= 3 bytes over a 10-byte alphabet",
                     thorough="Position.Advance: spans <= 5 bytes; inputs <= 4 bytes"),
-        outside="text/scanner-based lexer (content produced by the stdlib scanner); inputs longer than the bound",
+        outside="text/scanner-based lexer beyond 3 bytes of its 10-byte alphabet (multi-byte characters, escapes, long literals); inputs longer than the bound",
         assumptions=["package regexp replaced by the reference matcher on symbolic input"],
         explanation="Position and losslessness invariants asserted on every path of the runtime lexer; Advance checked as a unit against its specification.",
     ),
